@@ -139,12 +139,16 @@ func (m *CloneMap) cloneFields(fs []*Field) []*Field {
 type Mentions struct {
 	Fields  map[*Field]bool
 	Members map[*EnumVal]bool
+	// Instantiated holds the struct-likes some struct literal builds a value
+	// of.  Such a literal fixes every field of the value: the ones it names
+	// and, as absent, all others.
+	Instantiated map[*Def]bool
 }
 
 // CollectMentions walks every constant and every declared default (struct
 // fields, function arguments and throws lists) of the program.
 func CollectMentions(p *Program) *Mentions {
-	ms := &Mentions{Fields: map[*Field]bool{}, Members: map[*EnumVal]bool{}}
+	ms := &Mentions{Fields: map[*Field]bool{}, Members: map[*EnumVal]bool{}, Instantiated: map[*Def]bool{}}
 	for _, f := range p.Files {
 		for _, d := range f.Defs {
 			if d.Kind == KConst {
@@ -192,6 +196,7 @@ func (ms *Mentions) walk(t *Type, v *Value) {
 		if v.Kind != VMap {
 			return
 		}
+		ms.Instantiated[ft.Ref] = true
 		for i, k := range v.Keys {
 			if k.Kind != VLit {
 				continue
